@@ -1,0 +1,124 @@
+//go:build verif
+
+package buffered
+
+// Contracts for the buffered provider's operation coalescing (property C17).
+// Comment-only.
+
+/*@
+# encode / decode of a queued operation are inverse
+func toBytes(op byte, key mh.Multihash) []byte
+  props C17
+  modifies nothing
+  ensures len(result) == 1 + len(key) && result[0] == op && all(i, 0, len(key), result[1+i] == key[i])
+
+func fromBytes(data []byte) (byte, mh.Multihash, error)
+  props C17
+  requires len(data) >= 1
+  modifies nothing
+  ensures result0 == data[0]
+
+# Ghost view of the batch: $op[j] / $k[j] are the operation byte and the key
+# (as the string the code itself uses for its stop set) decoded from item j;
+# $last[x] is the index of the LAST start/stop operation on key x (-1: none).
+# "startlike" = StartProviding with or without force (op 1 or 2), stop = op 3.
+#
+# One-by-one semantics: a key ends up NOT kept for reproviding iff its last
+# start/stop operation in the batch is a stop. The worker runs the start
+# groups first and the stop group last, so the grouped execution has the same
+# final effect iff the stop group holds exactly the keys whose last start/stop
+# operation is a stop: [stop-group-sound] + [stop-group-complete], with $last
+# pinned down by [last-is-an-op-on-x] and [nothing-later].
+pred ss(o int) = o == 1 || o == 2 || o == 3
+
+func getOperations(dequeued [][]byte) ([][]mh.Multihash, error)
+  props C17
+  requires all(i, 0, len(dequeued), len(dequeued[i]) >= 1)
+  ghostvar $op map[int]int = any
+  ghostvar $k map[int]string = any
+  ghostvar $last map[string]int = any
+  ghostvar $pos map[string]int = any
+  ghostvar $rank map[int]int = any
+  ghostvar $src0 map[int]int = any
+  ghostvar $src1 map[int]int = any
+  ghostvar $src2 map[int]int = any
+  modifies nothing
+  ensures [four-groups] imp(result1 == nil, len(result0) == 4)
+  ensures [internal-last-is-an-op-on-x] imp(result1 == nil, allT(x, string, $last[x] == -1 || (0 <= $last[x] && $last[x] < len(dequeued) && $k[$last[x]] == x && ss($op[$last[x]]))))
+  ensures [internal-nothing-later] imp(result1 == nil, allT(x, string, all(j, 0, len(dequeued), imp(j > $last[x], !(ss($op[j]) && $k[j] == x)))))
+  ensures [internal-stop-group-sound] imp(result1 == nil, all(i, 0, len(result0[3]), $last[str(result0[3][i])] >= 0 && $op[$last[str(result0[3][i])]] == 3))
+  ensures [internal-stop-group-complete] imp(result1 == nil, allT(x, string, imp($last[x] >= 0 && $op[$last[x]] == 3, 0 <= $pos[x] && $pos[x] < len(result0[3]) && str(result0[3][$pos[x]]) == x)))
+  ensures [internal-group0-is-the-subsequence] imp(result1 == nil, all(i, 0, len(result0[0]), 0 <= $src0[i] && $src0[i] < len(dequeued) && $op[$src0[i]] == 0 && str(result0[0][i]) == $k[$src0[i]] && $rank[$src0[i]] == i) && all(a, 0, len(result0[0]), all(b, a+1, len(result0[0]), $src0[a] < $src0[b])))
+  ensures [internal-group0-complete] imp(result1 == nil, all(j, 0, len(dequeued), imp($op[j] == 0, 0 <= $rank[j] && $rank[j] < len(result0[0]) && $src0[$rank[j]] == j)))
+  ensures [internal-group1-is-the-subsequence] imp(result1 == nil, all(i, 0, len(result0[1]), 0 <= $src1[i] && $src1[i] < len(dequeued) && $op[$src1[i]] == 1 && str(result0[1][i]) == $k[$src1[i]] && $rank[$src1[i]] == i) && all(a, 0, len(result0[1]), all(b, a+1, len(result0[1]), $src1[a] < $src1[b])))
+  ensures [internal-group1-complete] imp(result1 == nil, all(j, 0, len(dequeued), imp($op[j] == 1, 0 <= $rank[j] && $rank[j] < len(result0[1]) && $src1[$rank[j]] == j)))
+  ensures [internal-group2-is-the-subsequence] imp(result1 == nil, all(i, 0, len(result0[2]), 0 <= $src2[i] && $src2[i] < len(dequeued) && $op[$src2[i]] == 2 && str(result0[2][i]) == $k[$src2[i]] && $rank[$src2[i]] == i) && all(a, 0, len(result0[2]), all(b, a+1, len(result0[2]), $src2[a] < $src2[b])))
+  ensures [internal-group2-complete] imp(result1 == nil, all(j, 0, len(dequeued), imp($op[j] == 2, 0 <= $rank[j] && $rank[j] < len(result0[2]) && $src2[$rank[j]] == j)))
+  loop over dequeued invariant stopProv != nil && fresh(stopProv)
+  loop over dequeued invariant all(i, 0, len(ops[0]), 0 <= $src0[i] && $src0[i] < $key && $op[$src0[i]] == 0 && str(ops[0][i]) == $k[$src0[i]] && $rank[$src0[i]] == i) && all(a, 0, len(ops[0]), all(b, a+1, len(ops[0]), $src0[a] < $src0[b]))
+  loop over dequeued invariant all(j, 0, $key, imp($op[j] == 0, 0 <= $rank[j] && $rank[j] < len(ops[0]) && $src0[$rank[j]] == j))
+  loop over dequeued invariant all(i, 0, len(ops[1]), 0 <= $src1[i] && $src1[i] < $key && $op[$src1[i]] == 1 && str(ops[1][i]) == $k[$src1[i]] && $rank[$src1[i]] == i) && all(a, 0, len(ops[1]), all(b, a+1, len(ops[1]), $src1[a] < $src1[b]))
+  loop over dequeued invariant all(j, 0, $key, imp($op[j] == 1, 0 <= $rank[j] && $rank[j] < len(ops[1]) && $src1[$rank[j]] == j))
+  loop over dequeued invariant all(i, 0, len(ops[2]), 0 <= $src2[i] && $src2[i] < $key && $op[$src2[i]] == 2 && str(ops[2][i]) == $k[$src2[i]] && $rank[$src2[i]] == i) && all(a, 0, len(ops[2]), all(b, a+1, len(ops[2]), $src2[a] < $src2[b]))
+  loop over dequeued invariant all(j, 0, $key, imp($op[j] == 2, 0 <= $rank[j] && $rank[j] < len(ops[2]) && $src2[$rank[j]] == j))
+  loop over dequeued invariant allT(x, string, $last[x] == -1 || (0 <= $last[x] && $last[x] < $key && $k[$last[x]] == x && ss($op[$last[x]])))
+  loop over dequeued invariant allT(x, string, all(j, 0, $key, imp(j > $last[x], !(ss($op[j]) && $k[j] == x))))
+  loop over dequeued invariant allT(x, string, has(stopProv, x) == ($last[x] >= 0 && $op[$last[x]] == 3))
+  loop over stopProv invariant all(i, 0, len(stopOps), has(stopProv, str(stopOps[i])))
+  loop over stopProv invariant allT(x, string, imp($visited[x], 0 <= $pos[x] && $pos[x] < len(stopOps) && str(stopOps[$pos[x]]) == x))
+  ghost at entry: $last = mapcomp(x, string, -1)
+  ghost at call(fromBytes): $op[$key] = $ret0; $k[$key] = str($ret1)
+  ghost at assign(stopProv[string(h)]): $last[str(h)] = $key
+  ghost at append(ops[op]): $last[str(h)] = $key; $src1 = ite(op == 1, upd($src1, len(ops[1])-1, $key), $src1); $src2 = ite(op == 2, upd($src2, len(ops[2])-1, $key), $src2); $rank[$key] = len(ops[op])-1
+  ghost at append(ops[provideOnceOp]): $src0[len(ops[0])-1] = $key; $rank[$key] = len(ops[0])-1
+  ghost at append(stopOps): $pos[hstr] = len(stopOps) - 1
+
+# The worker applies one batch in the order the equivalence argument needs:
+# forced starts, starts, provide-once, and the stop group LAST; each group is
+# handed unchanged to the wrapped provider.
+func (s *SweepingProvider) worker()
+  props C17
+  modifies *
+  ghost at before call(executeOperation)#0: assert($arg1 == ops[forceStartProvidingOp])
+  ghost at before call(executeOperation)#1: assert($arg1 == ops[startProvidingOp])
+  ghost at before call(executeOperation)#2: assert($arg1 == ops[provideOnceOp])
+  ghost at before call(executeOperation)#3: assert($arg1 == ops[stopProvidingOp])
+
+funclit 0 in (s *SweepingProvider) worker()
+  props C17
+  ghost at before call(StartProviding): assert($arg0 && $arg1 == keys)
+
+funclit 1 in (s *SweepingProvider) worker()
+  props C17
+  ghost at before call(StartProviding): assert(!$arg0 && $arg1 == keys)
+
+role f(keys ...mh.Multihash) error in (s *SweepingProvider) executeOperation(f func(...mh.Multihash) error, keys []mh.Multihash)
+  modifies *
+
+func (s *SweepingProvider) executeOperation(f func(...mh.Multihash) error, keys []mh.Multihash)
+  props C17
+  modifies *
+  ghost at before call(f): assert($arg0 == keys && len(keys) > 0)
+
+# the public methods enqueue exactly the operation they stand for
+func (s *SweepingProvider) StartProviding(force bool, keys ...mh.Multihash) error
+  props C17
+  modifies *
+  ghost at before call(enqueue): assert($arg0 == ite(force, forceStartProvidingOp, startProvidingOp) && $arg1 == keys)
+
+func (s *SweepingProvider) StopProviding(keys ...mh.Multihash) error
+  props C17
+  modifies *
+  ghost at before call(enqueue): assert($arg0 == stopProvidingOp && $arg1 == keys)
+
+func (s *SweepingProvider) ProvideOnce(keys ...mh.Multihash) error
+  props C17
+  modifies *
+  ghost at before call(enqueue): assert($arg0 == provideOnceOp && $arg1 == keys)
+
+func (s *SweepingProvider) enqueue(op byte, keys ...mh.Multihash) error
+  props C17
+  modifies *
+  ghost at before call(toBytes): assert($arg0 == op && $arg1 == keys[$key])
+@*/
+
